@@ -30,10 +30,19 @@
  * qmail-send with that call failing, then one run per unlink of qmail-clean - intd/ todo/ mess/ - failing with EIO) and nrandom/50 clean-stop sweeps (expired/young messages, low concurrency; base run, then one
  * run per select point with TERM there, exit 0, restart on the same queue).
  *
+ * Two build modes.  Default (C15/C16 legs): qmail.c is replaced by a stand-in below (a bounce injection is one atomic event).
+ * -DQSEND_REAL_QMAIL (C03/C04): qmail-send is linked with the REAL qmail.o of the scratch build (qmail.c compiled with
+ * -include qsend_fork.h), and qmail_open()'s fork/exec starts the REAL qmail-queue main (instance "qq") as a third simulated
+ * process on the other side of three simulated pipes; the bounce is what qmail-queue commits to the simulated queue, and from
+ * then on it is an ordinary message of the scenario.  bf=1 makes that qmail-queue run fail at its first queue-file call;
+ * fault=2:<k>:<errno> makes the k-th call of the first qmail-queue child fail.
+ *
  * output: CASE <scenario>, T <trace>, X <harness events>, D <queue dump>, END
  */
 #define _GNU_SOURCE
 #include "sim.h"
+#include <dlfcn.h>
+#include <sys/wait.h>
 #include "auto_split.h"
 #include <signal.h>
 #include <stdarg.h>
@@ -128,6 +137,8 @@ static void send_report(pend *e) {
 static void sink_written(simproc *p, int fd) { if (p->idx == 0 && (fd == 1 || fd == 3)) parse_commands(); }
 
 /* ---- arrivals ---- */
+static void known_add(int ino);
+static void known_prune(void);
 static void create_message(smsg *m, int idx) {
   char body[200]; int bl = snprintf(body, sizeof body, "Subject: m%d\n\nbody of message %d\n", idx, idx);
   int ino = sim_mkfile_ino(QROOT "/mess/%d/%d", auto_split, body, bl, 7794, 0644);
@@ -138,7 +149,7 @@ static void create_message(smsg *m, int idx) {
   char p1[100], p2[100]; snprintf(p1, sizeof p1, QROOT "/intd/%d", ino); snprintf(p2, sizeof p2, QROOT "/todo/%d", ino);
   sim_mkfile(p1, env, n, 7794, 0644); sim_link_(p1, p2);
   W.ino[ino].atime = W.ino[ino].mtime = W.clock;
-  m->created = ino;
+  m->created = ino; known_add(ino);
   xlog("X newmsg id=%d sender=", ino); xhex(m->sender, strlen(m->sender));
   for (int i = 0; i < m->nrcpt; i++) { xlog(" rcpt="); xhex(m->rcpt[i], strlen(m->rcpt[i])); }
   xlog("\n");
@@ -157,7 +168,7 @@ static void mark_active(void) { if (incarnation == 1) { last_active = nselect; i
 static int totrcpt;
 static int daemon_select(simproc *p, int nfds, fd_set *r, fd_set *w, struct timeval *tv) {
   if (p->idx != 0) return 0;
-  nselect++;
+  nselect++; known_prune();
   parse_commands();
   int newcmds = npending != seen_pending; seen_pending = npending;
   if (newcmds) mark_active();
@@ -195,6 +206,7 @@ static int daemon_select(simproc *p, int nfds, fd_set *r, fd_set *w, struct time
   return n;
 }
 
+#ifndef QSEND_REAL_QMAIL
 /* ---- stand-in for qmail.c: bounce injection is one atomic event (its atomicity is C01) ---- */
 static hbuf bmsg, benv; static int bfail;
 int qmail_open(struct qmail *qq) { bmsg.n = benv.n = 0; bfail = 0; qq->flagerr = 0; qq->pid = 9000 + nbounce; qq->fdm = 1; return 0; }
@@ -210,6 +222,128 @@ char *qmail_close(struct qmail *qq) {
   xlog("X bounce n=%d result=%s env=", nbounce, fail ? "fail" : "ok"); xhex(benv.p, benv.n); xlog(" body="); xhex(bmsg.p, bmsg.n); xlog("\n");
   return fail ? "Zqq scripted failure (#4.3.0)" : "";
 }
+
+static int announce_new_messages(int direct) { (void)direct; return -1; }
+static void known_add(int ino) { (void)ino; }
+static void known_prune(void) { }
+static void real_reset(void) { }
+#else
+/* ---- REAL qmail.c mode (-DQSEND_REAL_QMAIL; qmail.c compiled with -include qsend_fork.h): qmail-send's injectbounce() drives
+ * the real qmail_open/put/fail/from/to/close; qmail_open's pipe()/fork()/execv() create a second simulated process that runs
+ * the REAL qmail-queue main (instance "qq") under qsim on the other side of three simulated pipes; qmail_close's waitpid()
+ * blocks until it has exited.  What counts as "the bounce" for the driver (X bounce ... env= body=) is what qmail-queue
+ * COMMITTED to the queue: the envelope in todo/<n> and the content of mess/<n>; the new message is announced (X newmsg) and
+ * from then on is an ordinary message of the scenario (its recipient is the original sender / the double-bounce address).
+ * bf=1 (scripted failure) makes qmail-queue's first queue-file system call fail (it exits 63: "trouble creating files"). */
+SIM_INSTANCE(qq)
+static int nknown;                              /* message numbers already announced with X newmsg */
+static int known[4096]; static void known_add(int ino) { if (nknown < 4096) known[nknown++] = ino; }
+static int is_known(int ino) { for (int i = 0; i < nknown; i++) if (known[i] == ino) return 1; return 0; }
+/* a message number is reused once the message is gone; it stays `known` only while its todo/<n> exists (called at every select
+ * of the daemon: between the removal of todo/<n> by qmail-clean and a new message with that number lie many selects) */
+static void known_prune(void) {
+  int k = 0; char pth[120];
+  for (int i = 0; i < nknown; i++) { snprintf(pth, sizeof pth, QROOT "/todo/%d", known[i]); if (sim_lookup(pth) >= 0) known[k++] = known[i]; }
+  nknown = k;
+}
+static simproc *qq_parent; static int qq_forks, qq_fault_slot = -1;
+static void real_reset(void) { nknown = 0; qq_forks = 0; qq_fault_slot = -1; }
+/* announce every todo/<n> that qmail-queue linked; returns the last one announced (or -1) */
+static int announce_new_messages(int direct) {
+  int last = -1; const char *pre = QROOT "/todo/"; size_t pl = strlen(pre);
+  for (int i = 0; i < W.ndent; i++) {
+    if (W.dent[i].ino < 0 || strncmp(W.dent[i].path, pre, pl)) continue;
+    int id = atoi(W.dent[i].path + pl); if (id <= 0 || is_known(id)) continue;
+    known_add(id); last = id;
+    hbuf *b = &W.ino[W.dent[i].ino].cur; size_t k = 0;
+    hbuf line = { 0 }; char t[64]; int n = snprintf(t, sizeof t, "X newmsg id=%d sender=", id); hbuf_add(&line, t, n);
+    static const char hx[] = "0123456789abcdef"; int seenF = 0;
+    while (k < b->n) {
+      size_t e = k; while (e < b->n && b->p[e]) e++;
+      if (e >= b->n) break;                               /* unterminated tail: not a record */
+      if (b->p[k] == 'F' && !seenF) { seenF = 1; if (e == k + 1) hbuf_add(&line, "-", 1); for (size_t j = k + 1; j < e; j++) { char h[2] = { hx[b->p[j] >> 4], hx[b->p[j] & 15] }; hbuf_add(&line, h, 2); } }
+      else if (b->p[k] == 'T' && seenF) { hbuf_add(&line, " rcpt=", 6); if (e == k + 1) hbuf_add(&line, "-", 1); for (size_t j = k + 1; j < e; j++) { char h[2] = { hx[b->p[j] >> 4], hx[b->p[j] & 15] }; hbuf_add(&line, h, 2); } }
+      k = e + 1;
+    }
+    hbuf_add(&line, "\n", 1);
+    if (direct) fwrite(line.p, 1, line.n, h_out); else hbuf_add(&sim_trace, line.p, line.n);
+    free(line.p);
+  }
+  return last;
+}
+static int fd_free_from(simproc *p, int from) { for (int fd = from; fd < SIM_MAXFD; fd++) if (p->fd[fd].kind == SFD_FREE) return fd; return -1; }
+int pipe(int fds[2]) {
+  if (!sim_on) { static int (*f)(int *); if (!f) f = dlsym(RTLD_NEXT, "pipe"); return f(fds); }
+  simproc *p = sim_cur;
+  /* the three pipes of an earlier injection are dead once both ends are closed everywhere: reuse them */
+  int dead = 1; for (int i = 2; i < W.npipe; i++) if (W.pipe[i].readers || W.pipe[i].writers) dead = 0;
+  if (dead && W.npipe > 2) W.npipe = 2;
+  int r = fd_free_from(p, 0), w = r < 0 ? -1 : fd_free_from(p, r + 1);
+  if (W.npipe >= 8 || r < 0 || w < 0) { errno = ENFILE; return -1; }
+  int id = sim_pipe_new(); sim_fd_pipe(p, r, id, 0); sim_fd_pipe(p, w, id, 1);
+  fds[0] = r; fds[1] = w;
+  sim_tr("P%d pipe -> %d %d\n", p->idx, r, w);
+  return 0;
+}
+jmp_buf *qsend_fork_prepare(void) {
+  simproc *par = sim_cur; qq_parent = par;
+  simproc *c = &P[2];
+  if (c->used && c->mainfn) { pthread_join(c->th, 0); c->mainfn = 0; }
+  long pid = 8000 + 100 * incarnation + (++qq_forks);
+  sim_proc(2, "qmail-queue", pid, par->uid, par->cwd);
+  c->euid = par->euid; c->gid = par->gid;
+  for (int fd = 0; fd < SIM_MAXFD; fd++) {          /* fork: the child inherits every descriptor */
+    simfd *f = &par->fd[fd]; c->fd[fd] = *f;
+    if (f->kind == SFD_FILE || f->kind == SFD_FIFO_R || f->kind == SFD_FIFO_W) { W.ino[f->ino].nopen++; if (f->kind == SFD_FIFO_R) W.ino[f->ino].readers++; if (f->kind == SFD_FIFO_W) W.ino[f->ino].writers++; }
+    else if (f->kind == SFD_PIPE_W) W.pipe[f->aux].writers++;
+    else if (f->kind == SFD_PIPE_R) W.pipe[f->aux].readers++;
+  }
+  sim_tr("P%d fork -> %ld\n", par->idx, pid);
+  return &c->exitjb;
+}
+int qsend_fork_child(void) { sim_cur = &P[2]; sim_threads = 0; return 0; }      /* the child branch runs inline until execv / _exit */
+int qsend_fork_parent(void) { sim_cur = qq_parent; sim_threads = 1; sim_on = 1; return (int)P[2].pid; }
+int execv(const char *path, char *const argv[]) {
+  if (!sim_on) { static int (*f)(const char *, char *const *); if (!f) f = dlsym(RTLD_NEXT, "execv"); return f(path, argv); }
+  simproc *c = sim_cur;
+  if (c != &P[2] || strcmp(path, "bin/qmail-queue") || strcmp(c->cwd, "/var/qmail")) { errno = ENOENT; return -1; }
+  sim_tr("P%d execv %s\n", c->idx, path);
+  /* close-on-exec is not used by qmail-send: the queue program inherits what the child branch left open */
+  int scripted = S.bf[0] ? S.bf[nbounce % strlen(S.bf)] == '1' : 0;
+  qq_fault_slot = -1;
+  if (scripted && sim_nfaults < 8) { qq_fault_slot = sim_nfaults; sim_faults[sim_nfaults].proc = 2; sim_faults[sim_nfaults].callno = 1; sim_faults[sim_nfaults].err = EIO; sim_nfaults++; }
+  sim_on = 0; sim_threads = 1;
+  sim_spawn(c, qq_main);
+  longjmp(c->exitjb, 1);
+}
+static int qq_child_alive(simproc *p) { (void)p; return P[2].alive; }
+pid_t waitpid(pid_t pid, int *wstat, int opts) {
+  if (!sim_on) { static pid_t (*f)(pid_t, int *, int); if (!f) f = dlsym(RTLD_NEXT, "waitpid"); return f(pid, wstat, opts); }
+  simproc *p = sim_cur, *c = &P[2];
+  if (!c->used || c->pid != pid) { errno = ECHILD; return -1; }
+  if (c->alive) sim_wait(qq_child_alive, "waitpid");
+  if (c->mainfn) { pthread_join(c->th, 0); c->mainfn = 0; }
+  if (qq_fault_slot >= 0 && qq_fault_slot == sim_nfaults - 1) sim_nfaults--;
+  qq_fault_slot = -1;
+  for (int i = 0; i < sim_nfaults; i++) if (sim_faults[i].proc == 2) sim_faults[i].proc = 99;   /* a planned fault of the queue program (fault=2:k:e) hits the first injection only */
+  int ok = !c->crashed && c->exitcode == 0;
+  if (wstat) *wstat = c->crashed ? 9 : (c->exitcode & 255) << 8;
+  sim_tr("P%d waitpid %ld -> exit=%d crashed=%d\n", p->idx, (long)pid, c->exitcode, c->crashed);
+  c->used = 0;
+  nbounce++;
+  int id = announce_new_messages(0);
+  xlog("X bounce n=%d result=%s", nbounce, ok && id > 0 ? "ok" : "fail");
+  if (ok && id > 0) {
+    char pth[120]; snprintf(pth, sizeof pth, QROOT "/todo/%d", id); int ti = sim_lookup(pth);
+    snprintf(pth, sizeof pth, QROOT "/mess/%d/%d", id % auto_split, id); int mi = sim_lookup(pth);
+    xlog(" queued=%d env=", id);
+    if (ti >= 0) { hbuf *b = &W.ino[ti].cur; size_t k = 0; while (k < b->n && b->p[k] != 'F') { while (k < b->n && b->p[k]) k++; k++; } if (k < b->n) xhex(b->p + k, b->n - k); else xhex("", 0); } else xhex("", 0);
+    xlog(" body="); if (mi >= 0) xhex(W.ino[mi].cur.p, W.ino[mi].cur.n); else xhex("", 0);
+  } else xlog(" env=- body=-");
+  xlog("\n");
+  return pid;
+}
+#endif
 
 /* ---- world ---- */
 static void ctl(const char *name, const char *val) { char p[120]; snprintf(p, sizeof p, "/var/qmail/control/%s", name); sim_mkfile(p, val, strlen(val), 0, 0644); }
@@ -238,6 +372,7 @@ static void start_incarnation(void) {
   sim_globals_restore();
   npending = 0; nselect = 0; cmdpos[0] = cmdpos[1] = 0; stop_requested = 0; seen_pending = 0;
   W.nsrc = 0; W.nsink = 0; W.npipe = 0;
+  P[2].used = 0;
   simproc *p0 = sim_proc(0, "qmail-send", 500 + incarnation, 7796, "/");
   simproc *p1 = sim_proc(1, "qmail-clean", 600 + incarnation, 7794, "/");
   sim_fd_sink(p0, 0);
@@ -278,6 +413,7 @@ static void run_scenario(void) {
   fprintf(h_out, "CASE %s\n", S.text);
   incarnation = 0; nattempt = 0; nbounce = 0; ordrng = 88172645463325252ull; last_active = 0; memset(active_sel, 0, sizeof active_sel);
   totrcpt = 0; for (int i = 0; i < S.nmsg; i++) totrcpt += S.msg[i].nrcpt;
+  real_reset();
   world_init();
   dump("init");
   for (int inc = 0; inc < 8; inc++) {
@@ -289,7 +425,7 @@ static void run_scenario(void) {
     if (inc == 0 && after_first_incarnation) after_first_incarnation();
     flush_trace();
     int crashed = P[0].crashed;
-    if (crashed) { sim_apply_crash(inc < S.ncrash ? S.crash[inc].mode : CR_KEEP); fprintf(h_out, "X crash-applied mode=%d\n", inc < S.ncrash ? S.crash[inc].mode : 0); }
+    if (crashed) { sim_apply_crash(inc < S.ncrash ? S.crash[inc].mode : CR_KEEP); fprintf(h_out, "X crash-applied mode=%d\n", inc < S.ncrash ? S.crash[inc].mode : 0); announce_new_messages(1); }
     char tag[24]; snprintf(tag, sizeof tag, "after%d", inc + 1); dump(tag);
     if (crashed) continue;
     /* arrivals scheduled for an incarnation that crashed are re-armed relative to the new incarnation */
@@ -453,15 +589,17 @@ static void gen_termbase(char *o, size_t osz) {
  * of, a file below info/ local/ remote/ bounce/ todo/ */
 static int sweep_calls[8192], sweep_ncalls, sweep_all, sweep_total, sweep_last_active; static unsigned char sweep_active[MAXSEL];
 static int sweep_calls1[64], sweep_ncalls1;      /* the unlink calls of qmail-clean (process 1) in the base run */
+static int sweep_max2;                           /* REAL qmail.c mode: the largest call number of a qmail-queue child (process 2) in the base run */
 static int qfile(const char *path) { return !strncmp(path, "info/", 5) || !strncmp(path, "local/", 6) || !strncmp(path, "remote/", 7) || !strncmp(path, "bounce/", 7) || !strncmp(path, "todo/", 5); }
 static void collect_calls(void) {
   char *s = (char *)sim_trace.p; size_t n = sim_trace.n, i = 0; int isq[SIM_MAXFD]; memset(isq, 0, sizeof isq);
-  sweep_ncalls = 0; sweep_ncalls1 = 0; sweep_total = P[0].ncalls; sweep_last_active = last_active; memcpy(sweep_active, active_sel, sizeof sweep_active);
+  sweep_ncalls = 0; sweep_ncalls1 = 0; sweep_max2 = 0; sweep_total = P[0].ncalls; sweep_last_active = last_active; memcpy(sweep_active, active_sel, sizeof sweep_active);
   while (i < n) {
     size_t j = i; while (j < n && s[j] != '\n') j++;
     char line[400]; size_t l = j - i < sizeof line - 1 ? j - i : sizeof line - 1; memcpy(line, s + i, l); line[l] = 0; i = j + 1;
     int k, fd; char op[40], arg[200];
     if (sscanf(line, "P0 close %d", &fd) == 1) { if (fd >= 0 && fd < SIM_MAXFD) isq[fd] = 0; continue; }
+    if (sscanf(line, "P2 #%d ", &k) == 1) { if (k > sweep_max2) sweep_max2 = k; continue; }
     if (sscanf(line, "P1 #%d unlink %199s", &k, arg) == 2) { if (strncmp(arg, "pid/", 4) && sweep_ncalls1 < 64) sweep_calls1[sweep_ncalls1++] = k; continue; }
     if (sscanf(line, "P0 #%d %39s %199s", &k, op, arg) != 3) continue;
     int hit = 0;
@@ -491,6 +629,12 @@ static void sweep_fault(char *base, int cap, int all) {
     snprintf(line, sizeof line, "%s fault=1:%d:%d", base, calls1[i], EIO);
     run_line(line);
   }
+  /* ... and (REAL qmail.c mode) one run per system call of the first qmail-queue child with that call failing (at most 12) */
+  int n2 = sweep_max2; int step2 = n2 > 12 ? (n2 + 11) / 12 : 1;
+  for (int k2 = 1; k2 <= n2; k2 += step2) {
+    snprintf(line, sizeof line, "%s fault=2:%d:%d", base, k2, EIO);
+    run_line(line);
+  }
 }
 
 static void sweep_term(char *base, int cap, int twice) {
@@ -511,7 +655,11 @@ static void sweep_term(char *base, int cap, int twice) {
 
 int main(int argc, char **argv) {
   h_init_out();
-  SIM_REGISTER(qs); SIM_REGISTER(qc); sim_globals_snapshot();
+  SIM_REGISTER(qs); SIM_REGISTER(qc);
+#ifdef QSEND_REAL_QMAIL
+  SIM_REGISTER(qq);
+#endif
+  sim_globals_snapshot();
   char *line = malloc(4000);
   if (argc > 1 && !strcmp(argv[1], "-")) {
     while (fgets(line, 4000, stdin)) { if (strlen(line) < 3) continue; parse_scenario(line); run_scenario(); }
